@@ -175,8 +175,14 @@ def run(ctx):
     arg = decs[0].args[0]
     size_var = assigned_from(rd, ucall)
     construct = "read:body"
+    def is_size(e):
+        # the size decoded from the prefix: the variable that received it, or the decoding written in place
+        if size_var is not None and norm(e) == size_var:
+            return True
+        return isinstance(e, ast.Subscript) and e.value is ucall and isinstance(e.slice, ast.Constant) and e.slice.value == 0
+
     def is_fresh_read(v):
-        return isinstance(v, ast.Call) and isinstance(v.func, ast.Attribute) and v.func.attr == "read" and norm(v.func.value) == "self.fp" and [norm(a) for a in v.args] == [size_var] and not v.keywords
+        return isinstance(v, ast.Call) and isinstance(v.func, ast.Attribute) and v.func.attr == "read" and norm(v.func.value) == "self.fp" and len(v.args) == 1 and is_size(v.args[0]) and not v.keywords
 
     if isinstance(arg, ast.Name):
         rdefs = rcfg.reaching_defs(arg.id)[rcfg.node_of(decs[0]).id]
@@ -187,9 +193,9 @@ def run(ctx):
         values = [arg]  # the read is written in the argument position itself
         shown = [norm(arg)[:60]]
     fresh = bool(values) and all(is_fresh_read(v) for v in values)
-    ctx.check(fresh, "R4.5", construct, f"the object handed to the decoder is defined by {shown}, not by `self.fp.read({size_var})`: with a "
+    ctx.check(fresh, "R4.5", construct, f"the object handed to the decoder is defined by {shown}, not by `self.fp.read(<decoded size>)`: with a "
               "reused buffer or an unchecked readinto a short read leaves bytes of an earlier frame in place and a record that was never completely "
-              "written can be decoded", decs[0], f"self.packer.unpack(self.fp.read({size_var}))", key="R4.5:read:body-not-fresh-read")
+              "written can be decoded", decs[0], "self.packer.unpack(self.fp.read(<decoded size>))", key="R4.5:read:body-not-fresh-read")
     readinto = [c for c in calls_in(rd) if isinstance(c.func, ast.Attribute) and c.func.attr in ("readinto", "readinto1", "recv_into")]
     ctx.check(not readinto, "R4.5", "read:no-readinto", "readinto() fills a caller-owned buffer; its return value (bytes actually read) is not compared with the frame size",
               readinto[0] if readinto else rd, "no readinto", key="R4.5:read:readinto")
